@@ -10,6 +10,8 @@ NoScope == [owner |-> 0, kind |-> "", f |-> 0, open |-> FALSE, trig |-> FALSE, t
 Init == /\ tid \in 1..N /\ l = 1 /\ bad = ""
         /\ sco = [s \in Ids |-> NoScope] /\ flg = [f \in 1..4 |-> FALSE] /\ par = [k \in Ids |-> 0]
 Fail(c) == bad' = c /\ UNCHANGED <<sco, flg>>
+\* blocks whose trigger time the monitor knows: a delay, a flag, a date condition
+Timed(sc) == sc.kind \in {"until_d", "until_f", "until_date"}
 RECURSIVE Inside(_, _, _)
 Inside(k, s, fuel) == IF fuel = 0 \/ k \notin Ids \/ par[k] = 0 THEN FALSE
                       ELSE par[k] = s \/ Inside(sco[par[k]].owner, s, fuel - 1)
@@ -23,6 +25,10 @@ Step ==
      \* an until-interrupt must never be seen once its block has been left, nor by anybody but the owner
      IF x # <<>> /\ x[1] = "ci" /\ x[2] \in Ids /\ (sco[x[2]].exited \/ sco[x[2]].owner # a)
      THEN Fail("C07.late_interrupt_after_completion")
+     \* ... nor before the notification of a date / delay / flag block has fired
+     ELSE IF x # <<>> /\ x[1] = "ci" /\ x[2] \in Ids /\ sco[x[2]].open /\ Timed(sco[x[2]])
+             /\ (~sco[x[2]].trig \/ t < sco[x[2]].tt)
+     THEN Fail("C07.interrupted_before_trigger")
      \* no code of the owner runs inside the block at a time later than the trigger
      ELSE IF e.e \in {"b", "r", "x", "p"} /\ ~(F(e, "blk", "") = "scope" /\ op \in {"leave", "body"})
              /\ \E s \in Ids : sco[s].owner = a /\ sco[s].open /\ sco[s].trig /\ t > sco[s].tt
@@ -35,8 +41,9 @@ Step ==
                      isdate == k = "until_c" /\ e.c[1] \in {"ge", "eq"}
                      \* a date condition fires at its date, at once if it already holds, never if a moment has passed
                      trig == k = "until_d" \/ (k = "until_f" /\ flg[e.f]) \/ (isdate /\ ~(e.c[1] = "eq" /\ t > e.c[2]))
-                     tt == IF k = "until_d" THEN t + e.d ELSE IF isdate /\ e.c[2] > t THEN e.c[2] ELSE t IN
-                 /\ sco' = [sco EXCEPT ![e.s] = [owner |-> a, kind |-> k, f |-> F(e, "f", 0), open |-> TRUE,
+                     \* (`due`: now + delay as the harness computed it; recorded dates may be ranks of float dates)
+                     tt == IF k = "until_d" THEN F(e, "due", t + F(e, "d", 0)) ELSE IF isdate /\ e.c[2] > t THEN e.c[2] ELSE t IN
+                 /\ sco' = [sco EXCEPT ![e.s] = [owner |-> a, kind |-> IF isdate THEN "until_date" ELSE k, f |-> F(e, "f", 0), open |-> TRUE,
                                                  trig |-> trig, tt |-> tt, exited |-> FALSE]]
                  /\ UNCHANGED <<flg, bad>>
             [] e.e = "b" /\ op = "fset" ->
